@@ -176,7 +176,7 @@ class DictionaryDataBase(DataBase):
             Index of the data to be updated.
         """
         with self._lock:
-            self.database[index] = data
+            self.database[index]["dataObject"] = data
             return True
 
     def remove(self, data_object: dict) -> bool:
